@@ -27,10 +27,10 @@ def lenpfx(b):
 
 PROFILES = {
     # weights of: make cancel reply dup unsol short oversize deliver lost disconnect close meta wfail connOk connFail advance
-    "replies": dict(make=10, cancel=4, reply=10, dup=2, unsol=2, short=0.3, oversize=0.4, deliver=12, lost=1.5, disconnect=0.7, close=0.3, meta=0.3, wfail=0.15, connOk=8, connFail=1, advance=2),
-    "drops": dict(make=8, cancel=3, reply=4, dup=0.5, unsol=0.5, short=0.3, oversize=0.4, deliver=5, lost=6, disconnect=2, close=0.6, meta=1, wfail=0.2, connOk=4, connFail=4, advance=5),
-    "connect": dict(make=5, cancel=2, reply=2, dup=0.2, unsol=0.2, short=0.1, oversize=0.1, deliver=3, lost=3, disconnect=1, close=0.8, meta=2, wfail=0.1, connOk=2, connFail=7, advance=8),
-    "close": dict(make=8, cancel=3, reply=3, dup=0.3, unsol=0.3, short=0.1, oversize=0.2, deliver=4, lost=3, disconnect=1.5, close=3, meta=0.5, wfail=0.1, connOk=5, connFail=3, advance=4),
+    "replies": dict(make=8, cancel=4, reply=12, dup=2, unsol=2, short=0.3, oversize=0.4, deliver=14, lost=1.5, disconnect=0.7, close=0.15, meta=0.3, wfail=0.15, connOk=8, connFail=1, advance=2),
+    "drops": dict(make=7, cancel=3, reply=5, dup=0.5, unsol=0.5, short=0.3, oversize=0.4, deliver=6, lost=6, disconnect=2, close=0.25, meta=1, wfail=0.2, connOk=4, connFail=4, advance=5),
+    "connect": dict(make=5, cancel=2, reply=2, dup=0.2, unsol=0.2, short=0.1, oversize=0.1, deliver=3, lost=3, disconnect=1, close=0.3, meta=2, wfail=0.1, connOk=2, connFail=7, advance=8),
+    "close": dict(make=8, cancel=3, reply=3, dup=0.3, unsol=0.3, short=0.1, oversize=0.2, deliver=4, lost=3, disconnect=1.5, close=1.2, meta=0.5, wfail=0.1, connOk=5, connFail=3, advance=4),
 }
 
 
